@@ -6,3 +6,6 @@
             // C01 "one word per statement": the program has exactly one statement per instruction / trap / data token of the stream —
             // none dropped, none processed twice (what each statement contains is the helpers' contracts)
             r matches Ok(air) ==> air.ast@.len() == count_heads(self.toks.all(), self.toks.all().len() as int),
+            // C17: every statement's span is the text of its own tokens: from the start of its head token to the end of the last
+            // token consumed for it
+            r matches Ok(air) ==> forall|i: int| 0 <= i < air.ast@.len() ==> stmt_span_ok(self.toks.all(), (#[trigger] air.ast@[i]).span),
